@@ -104,7 +104,12 @@ func parseLine(line []byte) (r rec) {
 	if err := json.Unmarshal([]byte(inner), &e); err != nil {
 		return
 	}
-	r.f, r.t, r.obs = Canon(e.F), Canon(e.T), Canon(e.O)
+	r.f, r.t = Canon(e.F), Canon(e.T)
+	if e.O == nil {
+		r.obs = r.t // the observation is the whole abstract state
+	} else {
+		r.obs = Canon(e.O)
+	}
 	var lm map[string]interface{}
 	d := json.NewDecoder(bytes.NewReader(e.L))
 	d.UseNumber()
